@@ -1,5 +1,292 @@
-import Uquic.Model.Ack.Rcv
+/-
+C07 — ACKs acknowledge only what was received; duplicates are never processed twice.
+
+Property theorems only (helper lemmas live in Uquic/Proofs/Rcv*.lean). Every statement quantifies
+over ALL histories `ops` of the ReceivedPacketHandler API (`Uquic.Spec.RcvRun.Op`) or of the
+app-data tracker API (`AOp`); the ghost sets are defined in Uquic/Spec/RcvRun.lean.
+-/
+import Uquic.Proofs.RcvTimely
+import Uquic.Spec.RcvMon
+
 namespace Uquic.Props.C07
-open Uquic.Model.Rcv
-theorem placeholder : (1 : Nat) = 1 := rfl
+open Uquic.Model.Rcv Uquic.Spec.RcvRun Uquic.Proofs.Rcv
+
+/-- the history of a space in a handler state (`none`: the space was dropped) -/
+def histOf (h : Handler) : Space → Option Hist
+  | .ini => h.initial.map (·.hist)
+  | .hs => h.handshake.map (·.hist)
+  | .app => some h.app.t.hist
+
+theorem histOf_inv (ops : List Op) (sp : Space) (hist : Hist) (hh : histOf (run ops).h sp = some hist) :
+    ∃ F, HistInv hist ((run ops).g.get sp) F := by
+  have inv := HInv.run ops
+  cases sp with
+  | ini =>
+    simp only [histOf, Option.map_eq_some_iff] at hh
+    obtain ⟨t, ht, rfl⟩ := hh
+    exact inv.ini t ht
+  | hs =>
+    simp only [histOf, Option.map_eq_some_iff] at hh
+    obtain ⟨t, ht, rfl⟩ := hh
+    exact inv.hs t ht
+  | app =>
+    simp only [histOf, Option.some.injEq] at hh
+    subst hh; exact inv.app
+
+/-- 1. `ranges_wf`: after every history, in every space, the tracked ranges are descending, disjoint,
+    non-adjacent, non-empty intervals, and there are at most MaxNumAckRanges of them. -/
+theorem ranges_wf (ops : List Op) (sp : Space) (hist : Hist) (hh : histOf (run ops).h sp = some hist) :
+    WF hist.ranges ∧ hist.ranges.length ≤ maxNumAckRanges := by
+  obtain ⟨F, inv⟩ := histOf_inv ops sp hist hh
+  exact ⟨inv.wf, inv.len⟩
+
+/-- the ghost set only contains numbers that a `recv` operation of that space carried -/
+theorem registered_were_received (ops : List Op) (sp : Space) :
+    ∀ q ∈ (run ops).g.get sp, q ∈ recvOps sp ops := by
+  unfold run
+  suffices ∀ (s : St) (pre : List Op), (∀ q ∈ s.g.get sp, q ∈ recvOps sp pre) →
+      ∀ q ∈ (ops.foldl St.step s).g.get sp, q ∈ recvOps sp (pre ++ ops) by
+    simpa using this {} [] (by cases sp <;> simp [Ghost.get])
+  induction ops with
+  | nil => intro s pre h; simpa using h
+  | cons op rest ih =>
+    intro s pre h
+    have := ih (s.step op) (pre ++ [op]) (by
+      intro q hq
+      simp only [recvOps, List.filterMap_append, List.mem_append]
+      simp only [St.step] at hq
+      cases hr : registers s.h op with
+      | none => rw [hr] at hq; exact Or.inl (h q hq)
+      | some spp =>
+        obtain ⟨sp', p⟩ := spp
+        rw [hr] at hq
+        by_cases hsp : sp' = sp
+        · subst hsp
+          have hq' : q = p ∨ q ∈ s.g.get sp' := by
+            cases sp' <;> simpa [Ghost.add, Ghost.get] using hq
+          rcases hq' with rfl | hq'
+          · right
+            cases op with
+            | recv lvl pn ecn t ae =>
+              cases lvl <;> simp [registers] at hr <;> (try obtain ⟨_, hr1, hr2⟩ := hr) <;>
+                simp_all [Level.space]
+            | ignore _ => simp [registers] at hr
+            | drop _ => simp [registers] at hr
+            | ack _ _ _ => simp [registers] at hr
+          · exact Or.inl (h q hq')
+        · have hq' : q ∈ s.g.get sp := by
+            cases sp' <;> cases sp <;> simp_all [Ghost.add, Ghost.get]
+          exact Or.inl (h q hq'))
+    simpa [List.append_assoc] using this
+
+/-- bridge to the executable predicate that mirrors `validateAckRanges` of wire/ack_frame.go -/
+theorem rangesValid_of_WF (l : List Range) (h : WF l) (hne : l ≠ []) : Uquic.Spec.RcvMon.rangesValid l = true := by
+  induction l with
+  | nil => exact absurd rfl hne
+  | cons r rest ih =>
+    cases rest with
+    | nil => simp [Uquic.Spec.RcvMon.rangesValid, h.1]
+    | cons q rest' =>
+      simp only [Uquic.Spec.RcvMon.rangesValid, Bool.and_eq_true, decide_eq_true_eq]
+      exact ⟨⟨h.1, h.2.1 q (by simp)⟩, ih h.2.2 (by simp)⟩
+
+/-- the ranges of an ACK frame returned by `GetAckFrame` are the tracked history of that space -/
+theorem ack_ranges_are_history (h : Handler) (lvl : Level) (now : Int) (oiq : Bool) (a : Ack)
+    (ha : (h.getAckFrame lvl now oiq).2 = some a) :
+    ∃ hist, histOf h (Level.space lvl) = some hist ∧ a.ranges = hist.ranges ∧ lvl ≠ .zeroRTT := by
+  cases lvl with
+  | initial =>
+    simp only [Handler.getAckFrame] at ha
+    cases hi : h.initial with
+    | none => simp [hi] at ha
+    | some t =>
+      simp only [hi] at ha
+      exact ⟨t.hist, by simp [histOf, Level.space, hi], tracker_getAck_ranges t a ha, by decide⟩
+  | handshake =>
+    simp only [Handler.getAckFrame] at ha
+    cases hi : h.handshake with
+    | none => simp [hi] at ha
+    | some t =>
+      simp only [hi] at ha
+      exact ⟨t.hist, by simp [histOf, Level.space, hi], tracker_getAck_ranges t a ha, by decide⟩
+  | zeroRTT => simp [Handler.getAckFrame] at ha
+  | oneRTT =>
+    simp only [Handler.getAckFrame] at ha
+    exact ⟨h.app.t.hist, by simp [histOf, Level.space], app_getAck_ranges h.app now oiq a ha, by decide⟩
+
+/-- 2. `ack_sound`: after ANY history, an ACK frame returned for encryption level `lvl`
+    * has ranges that satisfy `validateAckRanges` (descending, disjoint, non-adjacent) whenever it has any,
+    * covers only packet numbers that a `recv` of that number space carried, and
+    * covers nothing below the threshold the peer allowed this endpoint to forget. -/
+theorem ack_sound (ops : List Op) (lvl : Level) (now : Int) (oiq : Bool) (a : Ack)
+    (ha : ((run ops).h.getAckFrame lvl now oiq).2 = some a) :
+    WF a.ranges ∧
+    (a.ranges ≠ [] → Uquic.Spec.RcvMon.rangesValid a.ranges = true) ∧
+    (∀ q, covers a.ranges q → q ∈ recvOps (Level.space lvl) ops) ∧
+    (lvl = .oneRTT → 0 < (run ops).h.app.ignoreBelow → ∀ q, covers a.ranges q → (run ops).h.app.ignoreBelow ≤ q) := by
+  obtain ⟨hist, hh, hr, _⟩ := ack_ranges_are_history _ lvl now oiq a ha
+  obtain ⟨F, inv⟩ := histOf_inv ops _ hist hh
+  rw [hr]
+  refine ⟨inv.wf, rangesValid_of_WF _ inv.wf, ?_, ?_⟩
+  · intro q hq
+    exact registered_were_received ops _ q (inv.sound q hq).1
+  · intro hl hpos q hq
+    subst hl
+    simp only [histOf, Level.space, Option.some.injEq] at hh
+    subst hh
+    have thr := (HInv.run ops).thr
+    rcases thr with ⟨h0, _⟩ | ⟨_, he⟩
+    · omega
+    · rw [← he]; exact (inv.sound q hq).2
+
+/-- 2b. `ack_includes_largest`: the first range of the ACK ends at the largest registered number
+    that is not below the forget threshold. -/
+theorem ack_includes_largest (ops : List Op) (lvl : Level) (now : Int) (oiq : Bool) (a : Ack)
+    (ha : ((run ops).h.getAckFrame lvl now oiq).2 = some a) :
+    ∃ hist, histOf (run ops).h (Level.space lvl) = some hist ∧
+      ∀ q ∈ (run ops).g.get (Level.space lvl), q < hist.deletedBelow ∨
+        ∃ top, a.ranges.head? = some top ∧ q ≤ top.2 ∧ top.2 ∈ (run ops).g.get (Level.space lvl) := by
+  obtain ⟨hist, hh, hr, _⟩ := ack_ranges_are_history _ lvl now oiq a ha
+  obtain ⟨F, inv⟩ := histOf_inv ops _ hist hh
+  refine ⟨hist, hh, ?_⟩
+  intro q hq
+  rcases inv.top q hq with h | ⟨t, ht, hle⟩
+  · exact Or.inl h
+  · exact Or.inr ⟨t, by rw [hr]; exact ht, hle, (inv.sound t.2 (head_covered inv.wf ht)).1⟩
+
+/-- 4a. `dup_sound`: a number reported as (potentially) duplicate was handed to this space before,
+    or lies below the forget threshold. -/
+theorem dup_sound (ops : List Op) (sp : Space) (hist : Hist) (hh : histOf (run ops).h sp = some hist) (p : Int)
+    (hd : hist.isPotentiallyDuplicate p = true) :
+    p ∈ (run ops).g.get sp ∨ p < hist.deletedBelow := by
+  obtain ⟨F, inv⟩ := histOf_inv ops sp hist hh
+  unfold Hist.isPotentiallyDuplicate at hd
+  split at hd
+  · rename_i h; exact Or.inr h
+  · exact Or.inl (inv.sound p ((dupScan_iff p _ inv.wf).mp hd)).1
+
+/-- 4b. `dup_complete`: every number handed to this space is recognised as a duplicate, unless the
+    range cap (MaxNumAckRanges) has dropped the range that contained it. `F` is exactly the list of
+    ranges dropped by the cap (`capDropped`), see `HistInv.recv`. -/
+theorem dup_complete (ops : List Op) (sp : Space) (hist : Hist) (hh : histOf (run ops).h sp = some hist) :
+    ∃ F, ∀ p ∈ (run ops).g.get sp, hist.isPotentiallyDuplicate p = true ∨ covers F p := by
+  obtain ⟨F, inv⟩ := histOf_inv ops sp hist hh
+  refine ⟨F, ?_⟩
+  intro p hp
+  unfold Hist.isPotentiallyDuplicate
+  rcases inv.complete p hp with h | h | h
+  · left; split
+    · rfl
+    · exact (dupScan_iff p _ inv.wf).mpr h
+  · left; simp [h]
+  · exact Or.inr h
+
+/-- the cap drops nothing while the history has room: with at most MaxNumAckRanges ranges after
+    insertion, `capDropped` is empty (so below the cap, duplicate detection is complete). -/
+theorem capDropped_nil_of_room (h : Hist) (p : Int) (hroom : (addRev p h.ranges).1.length ≤ maxNumAckRanges) :
+    capDropped h p = [] := by
+  unfold capDropped; split
+  · rfl
+  · exact List.drop_eq_nil_of_le hroom
+
+/-- 5. `new_iff_not_duplicate`: `ReceivedPacket` reports a number as new exactly when
+    `IsPotentiallyDuplicate` would have said "no" — so the tracker's BUG error is returned only for
+    numbers the duplicate test flags, and a flagged number is never registered as new a second time. -/
+theorem new_iff_not_duplicate (ops : List Op) (sp : Space) (hist : Hist) (hh : histOf (run ops).h sp = some hist) (p : Int) :
+    (hist.receivedPacket p).2 = true ↔ hist.isPotentiallyDuplicate p = false := by
+  obtain ⟨F, inv⟩ := histOf_inv ops sp hist hh
+  unfold Hist.receivedPacket Hist.isPotentiallyDuplicate
+  split
+  · simp
+  · simp only
+    have h1 := addRev_isNew p hist.ranges inv.wf
+    have h2 := dupScan_iff p hist.ranges inv.wf
+    cases hb : (addRev p hist.ranges).2 <;> cases hd : dupScan p hist.ranges <;> simp_all
+
+/-- 3a. `ack_immediate`: in the Initial and Handshake spaces an accepted ack-eliciting packet makes
+    `GetAckFrame` return a frame at once. -/
+theorem ack_immediate (t t' : Tracker) (pn : Int) (ecn : Nat)
+    (h : t.receivedPacket pn ecn true = some t') : (t'.getAckFrame).2.isSome = true := by
+  have := (tracker_recv_some h).2.2.2
+  unfold Tracker.getAckFrame
+  simp [this]
+
+/-- 3b. `ack_timely`: for every history of the app-data tracker that respects the caller contract,
+    every accepted ack-eliciting packet (arrival time `x.2`) not yet covered by a returned ACK has
+    an ACK queued, or the alarm is set and due no later than max_ack_delay after its arrival. -/
+theorem ack_timely (ops : List AOp) (hc : ContractAll {} ops) :
+    ∀ x ∈ (runT ops).pend,
+      (runT ops).a.ackQueued = true ∨ ((runT ops).a.ackAlarm ≠ 0 ∧ (runT ops).a.ackAlarm ≤ x.2 + maxAckDelay) := by
+  intro x hx
+  have inv := TInv.run ops hc
+  cases hq : (runT ops).a.ackQueued with
+  | true => exact Or.inl rfl
+  | false => exact Or.inr (inv.alarm hq x hx)
+
+/-- 3c. the ACK is queued at the latest on the `packetsBeforeAck`-th (2nd) ack-eliciting packet -/
+theorem ack_on_second (ops : List AOp) (hc : ContractAll {} ops) :
+    ((runT ops).pend.length : Int) ≥ packetsBeforeAck → (runT ops).a.ackQueued = true := by
+  intro h
+  have inv := TInv.run ops hc
+  cases hq : (runT ops).a.ackQueued with
+  | true => rfl
+  | false => have := inv.few hq; omega
+
+/-- 3d. a packet that fills a gap reported in the last ACK, a CE-marked packet, and a packet that
+    reveals a new gap each queue an ACK immediately (statement about one `ReceivedPacket` step from
+    any state whose last ACK has ranges). -/
+theorem ack_queued_on_gap_ce (a : AppTracker) (pn : Int) (ecn : Nat) (t : Int)
+    (hla : ∀ la, a.t.lastAck = some la → la.ranges ≠ []) :
+    ∃ a', a.queueStep pn ecn t = some a' ∧
+      (a.isMissing pn = some true → a'.ackQueued = true) ∧
+      (ecn = ecnCE → a'.ackQueued = true) ∧
+      (a.hasNewMissingPackets = some true → a'.ackQueued = true) := by
+  obtain ⟨a', h, _, _, _, _, _, h1, h2, h3⟩ := queueStep_spec a pn ecn t hla
+  exact ⟨a', h, h1, h2, h3⟩
+
+/-- 3e. `ack_due_is_produced`: while an ack-eliciting packet is pending, `GetAckFrame(now, false)`
+    returns a frame; `GetAckFrame(now, true)` returns one as soon as the ACK is queued or the alarm
+    has expired. -/
+theorem ack_due_is_produced (ops : List AOp) (hc : ContractAll {} ops) (now : Int)
+    (hp : (runT ops).pend ≠ []) :
+    ((runT ops).a.getAckFrame now false).2.isSome = true ∧
+    (((runT ops).a.ackQueued = true ∨ ((runT ops).a.ackAlarm ≠ 0 ∧ (runT ops).a.ackAlarm ≤ now)) →
+      ((runT ops).a.getAckFrame now true).2.isSome = true) := by
+  have inv := TInv.run ops hc
+  have hn := inv.newAck hp
+  constructor
+  · unfold AppTracker.getAckFrame Tracker.getAckFrame
+    simp [hn]
+  · intro h
+    unfold AppTracker.getAckFrame Tracker.getAckFrame
+    rcases h with h | ⟨h1, h2⟩
+    · simp [hn, h]
+    · have : ¬ ((runT ops).a.ackAlarm > now) := by omega
+      simp [hn, h1, this]
+
+/-- 5b. `no_panic_under_contract`: under the caller contract no `ReceivedPacket` call panics
+    (the index-out-of-range in `lastAck.LargestAcked()` needs an ACK without ranges). -/
+theorem no_panic_under_contract (ops : List AOp) (hc : ContractAll {} ops) : (runT ops).panicked = false :=
+  (TInv.run ops hc).noPanic
+
+/-! ### non-vacuity: concrete reachable states satisfy the hypotheses -/
+
+/-- a history with a gap, a duplicate, a late packet and a forget-below update -/
+def exampleOps : List Op :=
+  [.recv .oneRTT 2 1 1000 true, .recv .oneRTT 5 1 2000 true, .recv .oneRTT 5 1 2500 true,
+   .recv .oneRTT 3 1 3000 false, .ignore 3, .recv .initial 0 1 10 true]
+
+example : histOf (run exampleOps).h .app = some { ranges := [(5, 5), (3, 3)], deletedBelow := 3 } := by decide
+example : ((run exampleOps).h.getAckFrame .oneRTT 4000 false).2.isSome = true := by decide
+example : ((run exampleOps).h.getAckFrame .initial 4000 false).2.isSome = true := by decide
+
+def exampleAOps : List AOp := [.recv 1 1 1000 true, .ignore 1, .recv 4 1 2000 false, .recv 2 1 3000 true]
+theorem exampleAOps_contract : ContractAll {} exampleAOps :=
+  ⟨by simp [Contract], Or.inr ⟨(1, 1), by decide, by decide⟩, by simp [Contract], by simp [Contract], trivial⟩
+example : (runT exampleAOps).pend ≠ [] := by decide
+
+/-- outside the contract the panic is real (and the model predicts it): forget above everything
+    received, take the (range-less) ACK, receive another ack-eliciting packet -/
+example : (runT [.recv 1 1 1000 true, .ignore 5, .ack 2000 false, .recv 7 1 3000 true]).panicked = true := by decide
+
 end Uquic.Props.C07
